@@ -92,6 +92,7 @@ ImpListOf(form, m) ==
 BindName(form, d) == CASE form = "plain" -> d
                        [] form = "as"    -> Alias(d)
                        [] form = "imp"   -> IGet(d)
+                       [] form = "asx"   -> NShared     \* round 3 (C11): require d as shared
                        [] OTHER          -> NGet(d)
 
 \* module code resolves free names in its own scope and then in the base
@@ -206,15 +207,17 @@ ValKindOf(m, n) == IF n = NCommon THEN "common" ELSE CHOOSE kd \in ValKinds : NV
 \* Session.tla read it): the same module names as the generated graph, other
 \* contents - variant "alt" of the values, m_x = 8, a public m_w instead of
 \* m_z and the private _m_y - and a fixed shape: every module requires the
-\* next one of seq (plain), the last one requires nothing.
+\* next one of seq `as shared` (the form asx: every module of the chain binds
+\* its neighbour under the SAME name, so the name a module is bound under
+\* says nothing about which module it is), the last one requires nothing.
 RECURSIVE AltChain(_, _)
 AltChain(seq, k) ==
   IF k > Len(seq) THEN [x \in {} |-> 0]
   ELSE (seq[k] :> [syn |-> FALSE, priv |-> {NSt(seq[k])},
                    body |-> <<SVals(seq[k], "alt"), SDef8(seq[k] \o "_x")>>
                             \o (IF k < Len(seq)
-                                THEN <<[op |-> "req", n |-> "", id |-> seq[k + 1], form |-> "plain"],
-                                       [op |-> "rdr", n |-> seq[k] \o "_r1", id |-> seq[k + 1], form |-> "plain"]>>
+                                THEN <<[op |-> "req", n |-> "", id |-> seq[k + 1], form |-> "asx"],
+                                       [op |-> "rdr", n |-> seq[k] \o "_r1", id |-> seq[k + 1], form |-> "asx"]>>
                                 ELSE << >>)
                             \o <<[op |-> "def", n |-> seq[k] \o "_w", id |-> "", form |-> ""]>>])
        @@ AltChain(seq, k + 1)
